@@ -95,32 +95,32 @@ fn run_route(name: &'static str, text: &[u8], json: bool, explicit: bool, prog_p
     Some(RouteOut { name, out, err: trunc(&line, 300) })
 }
 
-/// Open finding: a JSON text whose trailing white space (after the root value) has a tab
-/// directly after a line break is rejected ("tab character used for indentation").
-const SIG_JSON_TAIL_TAB: &str = "C26/json-input-rejected/tab-after-line-break-in-trailing-white-space";
+/// Open finding: a JSON text with a tab in the white space *around* its root value (before
+/// the first or after the last token) can be rejected with "tab character used for
+/// indentation": `[1,2]\n\t`, `"a"\t`, `\t"a"`, `\n\ttrue`. Tabs inside the brackets are fine.
+const SIG_JSON_OUTER_TAB: &str = "C26/json-input-rejected/tab-outside-root-value";
 
-/// the white space after the last token of `json` contains a line break directly followed by a tab
-fn tab_after_break_in_tail(json: &[u8]) -> bool {
-    let end = json.iter().rposition(|b| !matches!(b, b' ' | b'\t' | b'\n' | b'\r')).map(|p| p + 1).unwrap_or(0);
-    json[end..].windows(2).any(|w| (w[0] == b'\n' || w[0] == b'\r') && w[1] == b'\t')
+/// (start, end) of the root value's text: first and one-past-last non-white-space byte
+fn root_extent(json: &[u8]) -> (usize, usize) {
+    let ws = |b: &u8| matches!(b, b' ' | b'\t' | b'\n' | b'\r');
+    let s = json.iter().position(|b| !ws(b)).unwrap_or(json.len());
+    let e = json.iter().rposition(|b| !ws(b)).map(|p| p + 1).unwrap_or(s);
+    (s, e)
 }
 
-/// Open finding: a JSON text whose root value is a scalar on a line that starts with a tab
-/// (`\t"a"`, `\n\t1`) is rejected ("tab character used for indentation").
-const SIG_JSON_LEAD_TAB: &str = "C26/json-input-rejected/tab-at-line-start-before-root-scalar";
-
-/// index of the tab that starts the line on which a *scalar* root value begins
-fn tab_starts_root_scalar_line(json: &[u8]) -> Option<usize> {
-    let s = json.iter().position(|b| !matches!(b, b' ' | b'\t' | b'\n' | b'\r'))?;
-    if json[s] == b'[' || json[s] == b'{' {
-        return None;
+/// a tab before the first or after the last token; with `fix` those tabs become spaces
+fn tab_outside_root(json: &mut [u8], fix: bool) -> bool {
+    let (s, e) = root_extent(json);
+    let mut found = false;
+    for i in (0..s).chain(e..json.len()) {
+        if json[i] == b'\t' {
+            found = true;
+            if fix {
+                json[i] = b' ';
+            }
+        }
     }
-    let line_start = json[..s].iter().rposition(|&b| b == b'\n' || b == b'\r').map(|p| p + 1).unwrap_or(0);
-    if line_start < s && json[line_start] == b'\t' {
-        Some(line_start)
-    } else {
-        None
-    }
+    found
 }
 
 /// Open finding: a number / `true` / `false` / `null` followed by white space with two or
@@ -305,7 +305,7 @@ pub fn check_case(c: &Case, st: &mut Stats) -> Result<Outcome, Fail> {
         Err(f) => f,
         ok => return ok,
     };
-    if f.sig.starts_with("C26/crash") || f.sig == SIG_JSON_TAIL_TAB || f.sig == SIG_JSON_LEAD_TAB {
+    if f.sig.starts_with("C26/crash") || f.sig == SIG_JSON_OUTER_TAB {
         return Err(f);
     }
     let mut fixed = c.clone();
@@ -373,13 +373,8 @@ fn check_inner(c: &Case, st: &mut Stats) -> Result<Outcome, Fail> {
             ));
         }
     }
-    if rs[0].out.code != Some(0) && rs[0].err.contains("tab character used for indentation") {
-        if tab_starts_root_scalar_line(&c.json).is_some() {
-            return Err(Fail::new(SIG_JSON_LEAD_TAB, detail(&rs, json!({}))));
-        }
-        if tab_after_break_in_tail(&c.json) {
-            return Err(Fail::new(SIG_JSON_TAIL_TAB, detail(&rs, json!({}))));
-        }
+    if rs[0].out.code != Some(0) && rs[0].err.contains("tab character used for indentation") && tab_outside_root(&mut c.json.clone(), false) {
+        return Err(Fail::new(SIG_JSON_OUTER_TAB, detail(&rs, json!({}))));
     }
     for r in &rs[1..] {
         if r.out.code != rs[0].out.code {
@@ -452,14 +447,12 @@ fn tree_opts(simple: bool) -> YOpts {
 /// known_findings.json; a finding that becomes `fixed` is generated again).
 #[derive(Clone, Copy, Default)]
 struct Avoid {
-    /// a tab right after a line break in the JSON text's trailing white space
-    tail_tab: bool,
+    /// a tab in the white space around the JSON root value
+    outer_tab: bool,
     /// a blank line after a bare JSON scalar
     blank_line: bool,
     /// a surrogate pair escape in a JSON string
     surrogates: bool,
-    /// a tab starting the line of a scalar root value
-    lead_tab: bool,
 }
 
 struct Generated {
@@ -482,22 +475,11 @@ fn gen_case(u: &mut Src, av: Avoid) -> Generated {
     if av.surrogates {
         surrogate_pairs_to_raw(&mut json);
     }
-    if av.lead_tab {
-        if let Some(i) = tab_starts_root_scalar_line(&json) {
-            json[i] = b' ';
-        }
+    if av.outer_tab {
+        tab_outside_root(&mut json, true);
     }
     if av.blank_line {
         bare_scalar_before_blank_line(&mut json, true);
-    }
-    if av.tail_tab && tab_after_break_in_tail(&json) {
-        // open finding: keep the trailing white space, but no tab right after a line break
-        let end = json.iter().rposition(|b| !matches!(b, b' ' | b'\t' | b'\n' | b'\r')).map(|p| p + 1).unwrap_or(0);
-        for i in end + 1..json.len() {
-            if json[i] == b'\t' && (json[i - 1] == b'\n' || json[i - 1] == b'\r') {
-                json[i] = b' ';
-            }
-        }
     }
     let mut bo = YOpts::block_only();
     bo.avoid = avoid();
@@ -550,9 +532,8 @@ fn describe(c: &Case) -> Value {
 
 fn run_case(u: &mut Src, st: &mut Stats, av: Avoid) -> Result<(), Fail> {
     let g = gen_case(u, av);
-    st.class_if(tab_after_break_in_tail(&g.case.json), "json:tab-after-line-break-in-tail");
+    st.class_if(tab_outside_root(&mut g.case.json.clone(), false), "json:tab-outside-root-value");
     st.class_if(surrogate_pairs_to_raw(&mut g.case.json.clone()), "json:surrogate-pair-escape");
-    st.class_if(tab_starts_root_scalar_line(&g.case.json).is_some(), "json:tab-starts-root-scalar-line");
     st.class_if(bare_scalar_before_blank_line(&mut g.case.json.clone(), false), "json:blank-line-after-bare-scalar");
     classify(&g, st);
     st.describe(|| describe(&g.case));
@@ -604,9 +585,9 @@ pub fn run(cx: &mut Ctx) {
             cx.replay_outcome(&name, r);
         }
     }
-    let av = Avoid { tail_tab: cx.is_known(SIG_JSON_TAIL_TAB), blank_line: cx.is_known(SIG_JSON_BLANK_LINE), surrogates: cx.is_known(SIG_JSON_SURROGATES), lead_tab: cx.is_known(SIG_JSON_LEAD_TAB) };
-    if av.tail_tab || av.blank_line || av.surrogates || av.lead_tab {
-        cx.note("open findings: `three-syntaxes` does not generate the JSON shapes of the findings listed as known (tab after a line break in trailing white space / tab before a root scalar / blank line after a bare scalar / surrogate pair escapes); `open-finding-shapes` generates them");
+    let av = Avoid { outer_tab: cx.is_known(SIG_JSON_OUTER_TAB), blank_line: cx.is_known(SIG_JSON_BLANK_LINE), surrogates: cx.is_known(SIG_JSON_SURROGATES) };
+    if av.outer_tab || av.blank_line || av.surrogates {
+        cx.note("open findings: `three-syntaxes` does not generate the JSON shapes of the findings listed as known (tab in the white space around the root value / blank line after a bare scalar / surrogate pair escapes); `open-finding-shapes` generates them");
     }
     cx.check("three-syntaxes", RULE, Budget { quick: 4_000, thorough: 200_000, max_len: 2500 }, |u, st| run_case(u, st, av));
     for cl in [
